@@ -16,6 +16,7 @@ class Verdict:
         self.tlc_states = 0
         self.tlc_runs = 0
         self.error = None
+        self.skipped = 0
 
 
 def _run(module, cfg, events, timeout, hwm=None, keep=False):
@@ -36,7 +37,7 @@ def _run(module, cfg, events, timeout, hwm=None, keep=False):
     return r
 
 
-def validate(items, module="Trace_Rapid", cfg="Trace_Rapid.cfg", timeout=600, bound=None, explain_dir=None):
+def validate(items, module="Trace_Rapid", cfg="Trace_Rapid.cfg", timeout=600, bound=None, explain_dir=None, max_reject=4):
     """items: list of (scenario dict, raw event list).  Returns a Verdict.
     All traces are checked in one TLC run; on rejection the offending trace is isolated,
     reported and the remaining traces are re-checked."""
@@ -80,6 +81,11 @@ def validate(items, module="Trace_Rapid", cfg="Trace_Rapid.cfg", timeout=600, bo
                 f.write(r2.out[-200000:])
             detail = base + ".tlc.txt"
         v.rejected.append((sc.get("id"), local, unmatched, detail))
+        if len(v.rejected) >= max_reject:
+            v.skipped = len(todo) - idx - 1
+            v.accepted += [s.get("id") for s, _ in todo[:idx]]
+            v.events += starts[idx] - 1
+            return v
         v.accepted += [s.get("id") for s, _ in todo[:idx]]
         v.events += starts[idx] - 1
         todo = todo[idx + 1:]
